@@ -67,6 +67,8 @@ SMALL = "1/10000000000000"
 
 def regenerate(ctx: Ctx) -> None:
     ctx.gen_status.update(hef_tr.regenerate())
+    from translate import transcripts as _tr
+    ctx.gen_status.update(_tr.constructor_wiring(['HybridEigenvectorFollowing']))
 
 
 # ----------------------------------------------------------------------------- helpers
@@ -731,6 +733,30 @@ def surfaces():
     return Cos, Sep, Bowl
 
 
+def fdquad_surface(d: int, seed: int):
+    """f = (x-c)^T A (x-c) / 2 with ONE negative eigenvalue and strong mixed derivatives, implementing `function` only:
+    gradient and Hessian are the library's own finite differences (as for any user surface that codes no derivatives)"""
+    _, _, Potential = imports()
+    r = np.random.default_rng(seed)
+    q, _ = np.linalg.qr(r.normal(size=(d, d)))
+    ev = np.concatenate(([-r.uniform(8.0, 20.0)], r.uniform(10.0, 40.0, d - 1)))
+    A = (q * ev) @ q.T
+    A = (A + A.T) / 2
+    c = r.uniform(-0.3, 0.3, d)
+
+    class FDQuad(Potential):
+        def __init__(self):
+            self.atomistic = False
+
+        def function(self, x):
+            y = np.asarray(x, dtype=float) - c
+            return float(0.5 * y @ A @ y)
+
+        def gradient_exact(self, x):
+            return A @ (np.asarray(x, dtype=float) - c)
+    return FDQuad()
+
+
 def dwell_surface():
     """f = (x0^2 - 1)^2 + sum_{i>=1} k_i (x_i - 1/2)^2 on [-2,2] x [0,1]^(d-1): the only index-one saddle is
     (0, 1/2, ..., 1/2).  Started ON a face of a harmonic coordinate (stationary within that face, downhill
@@ -822,6 +848,8 @@ def make_surface(spec: dict):
     if spec["kind"] == "dwell":
         return dwell_surface()(spec["d"]), [(-2.0, 2.0)] + [(0.0, 1.0)] * (spec["d"] - 1)
     Cos, Sep, Bowl = surfaces()
+    if spec["kind"] == "fdquad":
+        return fdquad_surface(spec["d"], spec["seed"]), [(-1.0, 1.0)] * spec["d"]
     if spec["kind"] == "bowl":
         return Bowl(), [(-1.0, 1.0)] * spec["d"]
     if spec["kind"] == "cos":
@@ -1302,12 +1330,20 @@ def pred_search(spec: dict, x0, np_seed: int, ts_steps: int = 40, reuse: dict | 
         return ("run:ts-out-of-box", f"transition state {x.tolist()} outside the box")
     if not (np.all(xp >= lo) and np.all(xp <= up) and np.all(xm >= lo) and np.all(xm <= up)):
         return ("run:minimum-out-of-box", f"a connected minimum lies outside the box: {xp.tolist()} {xm.tolist()}")
-    g = pot.gradient(x.copy())
+    # judged by the tolerance that was REQUESTED (not by what the object says it uses) and, for a surface that leaves the
+    # gradient to the library's finite differences, by the exact gradient written with the surface (plus the round-off
+    # of a central difference of step 1e-6: a quadratic has no truncation error)
+    tol_req = float(spec.get("tol", 1e-4))
+    if hasattr(pot, "gradient_exact"):
+        g = pot.gradient_exact(x.copy())
+        margin = 4.0 * 2.3e-16 * max(1.0, abs(float(pot.function(x.copy())))) / 1e-6
+    else:
+        g, margin = pot.gradient(x.copy()), 0.0
     free = ~((x <= lo) | (x >= up))
-    if np.any(np.abs(g[free]) >= h.ts_conv_crit):
+    if np.any(np.abs(g[free]) >= tol_req + margin):
         return ("run:not-converged-free-coordinate",
-                f"gradient {g.tolist()} at the reported transition state {x.tolist()} is not below "
-                f"{h.ts_conv_crit} in a coordinate that is not pinned")
+                f"gradient {np.asarray(g).tolist()} at the reported transition state {x.tolist()} is not below the requested "
+                f"tolerance {tol_req} in a coordinate that is not pinned (search options {spec.get('hef', {})})")
     if e != pot.function(x.copy()) or ep != pot.function(xp.copy()) or em != pot.function(xm.copy()):
         return ("run:energy-mismatch",
                 f"returned energies ({e}, {ep}, {em}) differ from the surface at the returned points "
@@ -1392,6 +1428,34 @@ def predicates(ctx: Ctx) -> None:
                          (" (search object reused from earlier searches)" if reuse is not None else ""),
                          {"kind": "search", "surface": spec, "x0": x0, "np_seed": seed, "ts_steps": ts_steps,
                           "reused": reuse is not None})
+    # surfaces that code no derivatives (the library's finite differences feed the convergence test): quadratic saddles with
+    # strong mixed derivatives, tight tolerance; and searches whose OTHER tolerances are looser than the transition-state one
+    for k in range(ctx.scale(4, 16) * deep):
+        d = rng.choice([2, 3, 4, 6])
+        spec = {"kind": "fdquad", "d": d, "seed": rng.randrange(10 ** 6), "tol": 1e-5, "pushoff": 0.2,
+                "hef": {"max_uphill_step_size": 0.2, "positive_eigenvalue_step": 0.05}}
+        x0 = [rng.uniform(-0.5, 0.5) for _ in range(d)]
+        seed = rng.randrange(2 ** 31)
+        r = pred_search(spec, x0, seed, 80)
+        ctx.stats.case({"stream": "predicate-search-finite-difference-surface", "d": d, "x0": V(x0)}, True)
+        outcomes["fd:" + ("fail" if r else "ok")] = outcomes.get("fd:" + ("fail" if r else "ok"), 0) + 1
+        if r:
+            ctx.fail(r[0] + ":finite-difference-surface", r[1], {"kind": "search", "surface": spec, "x0": x0, "np_seed": seed,
+                                                               "ts_steps": 80, "reused": False})
+            break
+    for k in range(ctx.scale(4, 16) * deep):
+        base = rng.choice([{"kind": "camel"}, {"kind": "cos", "d": rng.choice([2, 3]), "seed": rng.randrange(10 ** 6)}])
+        spec = dict(base, tol=1e-5, hef={"steepest_descent_conv_crit": rng.choice([1e-4, 1e-3, 1e-2]),
+                                         "eigenvalue_conv_crit": rng.choice([1e-5, 1e-6])})
+        _, bounds = make_surface(spec)
+        x0 = start_point(rng, bounds)
+        seed = rng.randrange(2 ** 31)
+        r = pred_search(spec, x0, seed, 60)
+        ctx.stats.case({"stream": "predicate-search-loose-descent-tolerance", "surface": spec, "x0": V(x0)}, True)
+        if r:
+            ctx.fail(r[0] + ":other-tolerances-looser", r[1], {"kind": "search", "surface": spec, "x0": x0, "np_seed": seed,
+                                                             "ts_steps": 60, "reused": False})
+            break
     # one-sided push-off failure: the success is legitimate only with the flag (both orientations, 1-D and 2-D)
     for d in (1, 2):
         for sign in (1.0, -1.0):
